@@ -23,6 +23,7 @@
 #include "llvm/ADT/SmallVector.h"
 #include "llvm/Support/raw_ostream.h"
 
+#include <algorithm>
 #include <cstdlib>
 #include <vector>
 
@@ -380,6 +381,8 @@ public:
     Command* decl;
     const Token& startTok;
     bool shellEscapeInAndOut;
+    /// The rule parameters currently being expanded (innermost last).
+    llvm::SmallVector<StringRef, 4> activeRuleParameters;
   };
   static void lookupBuildParameter(void* userContext, StringRef name,
                                    raw_ostream& result) {
@@ -389,8 +392,6 @@ public:
   void lookupBuildParameterImpl(LookupContext* context, StringRef name,
                                 raw_ostream& result) {
     auto decl = context->decl;
-      
-    // FIXME: Mange recursive lookup? Ninja crashes on it.
       
     // Support "in", "in_newline" and "out".
     if (name == "in" || name == "in_newline") {
@@ -421,11 +422,19 @@ public:
     }
     auto it2 = decl->getRule()->getParameters().find(name);
     if (it2 != decl->getRule()->getParameters().end()) {
+      // A rule parameter that (transitively) refers to itself has no value.
+      auto& active = context->activeRuleParameters;
+      if (std::find(active.begin(), active.end(), name) != active.end()) {
+        error("cycle in rule variable '" + name.str() + "'", context->startTok);
+        return;
+      }
+      active.push_back(name);
       evalString(context, it2->second, result, lookupBuildParameter,
                  /*Error=*/ [&](const std::string& msg) {
                    error(msg + " during evaluation of '" + name.str() + "'",
                          context->startTok);
                  });
+      active.pop_back();
       return;
     }
       
